@@ -48,6 +48,10 @@ struct Observer {
     virtual void end_of_step(World&, int /*report_step*/) {}
 };
 
+// decks shipped under /repo/tests that the tree can build a Schedule from without external state: have a SCHEDULE section,
+// no PYACTION (Python is not built in), no RESTART (needs the restart file); `min_time_keywords` DATES/TSTEP keywords; sorted
+std::vector<std::string> shipped_decks(std::size_t min_time_keywords);
+
 struct ExtraDef { const char* key; Opm::UnitSystem::measure dim; };
 const std::vector<ExtraDef>& extra_catalogue();
 
